@@ -197,6 +197,9 @@ type retainedVal struct {
 // NewRunner prepares a runner; dir is the scratch directory for the store.
 func NewRunner(p *Program, o Oracles, dir string) *Runner {
 	e := NewExec(p.Cfg, dir, true)
+	// a third of the programs open their store in two steps (OpenStore +
+	// Store.OpenCollection) instead of OpenStoreCollection
+	e.TwoStepOpen = p.Seed%3 == 0
 	return &Runner{E: e, P: p, O: o, handles: map[int]*Handle{},
 		Res: &Result{Counters: map[string]int64{}, Shapes: map[string]int{}, Nontrivial: map[string]int{}}}
 }
